@@ -669,7 +669,10 @@ def main(tier):
     check.run_jobs([(_compile, (g,)) for g in groups])
     rt = groups if tier == "thorough" else [G.BASIC[n] for n in ("SO2", "SO3", "SE2", "C1", "SE3")]
     jobs = [(job_exp, (g, tier)) for g in groups] + [(job_logexp, (g, tier)) for g in rt] + [(job_explog, (g, tier)) for g in rt]
-    run.bounds.append("log/exp round trips: " + ", ".join(g.name for g in rt))
+    if tier == "quick":
+        # SE_K_3 with K = 3: the only instantiation in which a per-block stride differs from 3 and from K+1 (seed C02d); log(exp(a)) only
+        jobs.append((job_logexp, (G.BASIC["SE_3_3"], tier)))
+    run.bounds.append("log/exp round trips: " + ", ".join(g.name for g in rt) + ("; SE_K_3<3>: log(exp(a)) = a only" if tier == "quick" else ""))
     run.extend(check.run_jobs(jobs, timeout=900 if tier == 'quick' else 1800))
     run.bounds += ["groups: " + ", ".join(g.name for g in groups), "closed-form paths: all tangent vectors (layer R identity)"]
     run.assumptions += ["layer R (exact real arithmetic); floating-point cancellation next to the switch is a layer-E question"]
